@@ -1,9 +1,8 @@
 #!/bin/bash
 # tools/mutant.sh <patch.diff> <property-id>... [-- tier]
-# Applies a patch to a scratch copy of /repo (outside /repo and /verif), runs the
-# given checks against the copy (LCV_REPO), prints a one-line verdict per check and
-# removes the copy. Evidence files of /verif are saved and restored, so a mutant
-# run never replaces committed evidence.
+# Applies a patch to a scratch copy of /repo (outside /repo and /verif), runs the given checks against
+# the copy (LCV_REPO) with their evidence redirected to the scratch dir (LCV_OUT), prints a one-line
+# verdict per check and removes the copy.
 # exit 0 = every listed check reported a violation (mutant detected).
 set -u
 cd "$(dirname "$0")/.."
@@ -16,22 +15,21 @@ while [ $# -gt 0 ]; do
 done
 SRC=${LCV_SRC:-/repo}
 TMP=$(mktemp -d /tmp/lcv-mut-XXXXXX)
-SAVE=$(mktemp -d /tmp/lcv-ev-XXXXXX)
-trap 'rm -rf "$TMP" "$SAVE"' EXIT
+trap 'rm -rf "$TMP"' EXIT
 rsync -a --exclude .git "$SRC"/ "$TMP"/repo/
-if ! (cd "$TMP/repo" && patch -p1 -s --no-backup-if-mismatch < "$PATCH"); then
-  echo "SKIP: patch does not apply: $PATCH"; exit 3
+if ! (cd "$TMP/repo" && patch -p1 -s --no-backup-if-mismatch < "$PATCH" >/dev/null 2>&1); then
+  echo "SKIP     $(basename "$(dirname "$PATCH")")/$(basename "$PATCH"): patch does not apply"; exit 3
 fi
-cp -a evidence/. "$SAVE"/ 2>/dev/null
+NAME="$(basename "$(dirname "$PATCH")")/$(basename "$PATCH")"
 rc=0
 for id in "${IDS[@]}"; do
-  out=$(LCV_REPO="$TMP/repo" ./check "$id" "$TIER" 2>&1); code=$?
+  out=$(LCV_REPO="$TMP/repo" LCV_OUT="$TMP" ./bin/lcverif check "$id" "$TIER" 2>&1); code=$?
   if [ $code -eq 1 ] && echo "$out" | grep -q "^VIOLATION property=$id"; then
-    echo "DETECTED $id $(basename "$PATCH"): $(echo "$out" | grep -E '^\s+(VIOLATION|UNDECIDED) ' | head -3 | tr '\n' ' ' | cut -c1-400)"
+    echo "DETECTED $id $NAME: $(echo "$out" | grep -E '^\s+(VIOLATION|UNDECIDED) ' | head -3 | sed 's/^ *//' | tr '\n' ' ' | cut -c1-${MUTW:-400})"
+  elif [ $code -eq 0 ]; then
+    echo "MISSED   $id $NAME"; rc=1
   else
-    echo "MISSED   $id $(basename "$PATCH") (exit $code)"; rc=1
-    [ -n "${VERBOSE:-}" ] && echo "$out" | tail -5
+    echo "ERROR    $id $NAME (exit $code): $(echo "$out" | tail -2 | tr '\n' ' ')"; rc=1
   fi
 done
-rm -rf evidence; mkdir -p evidence; cp -a "$SAVE"/. evidence/ 2>/dev/null
 exit $rc
